@@ -147,11 +147,14 @@ def run(ctx):
             ctx.check("interval:single", g == [d[q[0]][q[1]:q[2]]], "interval-fetch:single:%s" % tag, "single fetch %r gave %r" % (q, g), dict(c, text=text, query=q, got=g), (text, src, q, 1))
         # Genome route
         if c.get("genome") and c["eol"] == "\n":
-            g = bnp.Genome.from_file(path, sort_names=bool(c["seed"] % 2))       # genome order may differ from the file order
+            keep_all = c["seed"] % 3 == 0           # filter_function=None: every contig of the file belongs to the genome
+            g = bnp.Genome.from_file(path, sort_names=bool(c["seed"] % 2), filter_function=None) if keep_all else bnp.Genome.from_file(path, sort_names=bool(c["seed"] % 2))       # genome order may differ from the file order
             seq = g.read_sequence()
-            kept = [q for q in all_iv if "_" not in q[0]]          # Genome.from_file ignores '_' contigs by default
+            kept = [q for q in all_iv if keep_all or "_" not in q[0]]          # Genome.from_file ignores '_' contigs by default
+            if keep_all:
+                ctx.count("genomes_from_file_without_a_filter")
             for nm, sq in recs:
-                if "_" in nm:
+                if "_" in nm and not keep_all:
                     continue
                 first = seq[nm]
                 if len(first) and getattr(first.raw(), "flags", None) is not None and first.raw().flags.writeable:
@@ -174,6 +177,10 @@ def run(ctx):
             if not kept:
                 return
             gorder = list(g.get_genome_context().chrom_sizes)
+            want_contigs = sorted(nm for nm, _ in recs if keep_all or "_" not in nm)
+            if not ctx.check("genome-route", sorted(gorder) == want_contigs, "genome-route:contigs-of-the-genome:%s" % ("filter_function=None" if keep_all else "default-filter"), "Genome.from_file(%s) has contigs %r, the file has %r" % ("filter_function=None" if keep_all else "default filter", gorder, want_contigs),
+                             dict(c, text=text, got=gorder, expected=want_contigs), (text, keep_all, "contigs")):
+                return
             qs = sorted(r.sample(kept, min(8, len(kept))), key=lambda t: (gorder.index(t[0]), t[1], t[2]))
             gi = g.get_intervals(Interval([q[0] for q in qs], [q[1] for q in qs], [q[2] for q in qs]))
             res = [t.upper() for t in text_rows(seq[gi])]
